@@ -12,7 +12,7 @@ Lemma model_holds_C14 : forall frepr cf k p fuel o deep sdir ddir d' s c1 m1 c2 
   sync_ws frepr cf fuel o deep sdir ddir [] = (d', None) ->
   file_at (k :: p) sdir = Some (c1, m1) -> file_at (k :: p) ddir = Some (c2, m2) ->
   (o_recursive o = true \/ length (k :: p) = 1%nat) ->
-  forallb (fun n => negb (ignored cf n)) (k :: p) = true -> excluded cf o (last (k :: p) []) = false ->
+  forallb (fun n => negb (ignored cf n)) (k :: p) = true -> excluded cf (at_path o (k :: p)) (last (k :: p) []) = false ->
   file_same frepr deep c1 m1 c2 m2 = false ->
   is_content frepr (if verdict s (path_str (k :: p)) m1 m2 then c1 else c2) (file_at (k :: p) d') = true.
 Proof.
